@@ -2,7 +2,7 @@
 // Links liblzma.a of the build under test; contains NO code of src/xz or src/xzdec.
 //
 // Line protocol (one op per line on stdin, one result line on stdout):
-//   dec <tool xz|xzdec|lzmadec> <single 0|1> <ignorecheck 0|1> <format auto|xz|lzma|lzip> <infile> <outfile>
+//   dec <tool xz|xzdec|lzmadec> <single 0|1> <ignorecheck 0|1> <format auto|xz|lzma|lzip|raw> <infile> <outfile>
 //     -> fmt=<xz|lzma|lzip|unknown> init_warn=<k> init_ret=<lzma_ret> warn=<k> ret=<lzma_ret> trailing=<0|1>
 //        allow_trailing=<0|1> out=<bytes written to outfile> in=<file size>
 //
@@ -71,6 +71,7 @@ static void dec_xz(bool single, bool ignore_check, const char *format, FILE *in,
 	} else if (!strcmp(format, "xz")) { if (is_xz) fmt = "xz"; }
 	else if (!strcmp(format, "lzma")) { if (is_lzma) fmt = "lzma"; }
 	else if (!strcmp(format, "lzip")) { if (is_lz) fmt = "lzip"; }
+	else if (!strcmp(format, "raw")) { fmt = "raw"; }       // xz --format=raw --lzma2=preset=0: no detection, no header phase
 
 	uint32_t flags = ignore_check ? LZMA_IGNORE_CHECK : LZMA_TELL_UNSUPPORTED_CHECK;
 	bool allow_trailing = single;
@@ -93,12 +94,17 @@ static void dec_xz(bool single, bool ignore_check, const char *format, FILE *in,
 		ret = lzma_stream_decoder_mt(&strm, &mt);
 	} else if (!strcmp(fmt, "lzma")) {
 		ret = lzma_alone_decoder(&strm, UINT64_MAX);
+	} else if (!strcmp(fmt, "raw")) {
+		static lzma_options_lzma opt;
+		if (lzma_lzma_preset(&opt, 0)) { printf("io-error preset\n"); return; }
+		lzma_filter chain[2] = { { .id = LZMA_FILTER_LZMA2, .options = &opt }, { .id = LZMA_VLI_UNKNOWN, .options = NULL } };
+		ret = lzma_raw_decoder(&strm, chain);
 	} else {
 		allow_trailing = true;
 		ret = lzma_lzip_decoder(&strm, UINT64_MAX, flags);
 	}
 	int init_warn = 0, warn = 0;
-	if (ret == LZMA_OK) {
+	if (ret == LZMA_OK && strcmp(fmt, "raw") != 0) {
 		strm.next_out = NULL;
 		strm.avail_out = 0;
 		while ((ret = lzma_code(&strm, LZMA_RUN)) == LZMA_UNSUPPORTED_CHECK)
